@@ -80,6 +80,28 @@ func execC20Type(c *child.Ctx, t int, r *ref.SplitMix64, extraBodies int) {
 		return
 	}
 
+	// what single-frame decoding returns for the five bytes "leader with a zero length
+	// field + this type" can be displayed too, at both levels
+	for _, lvl := range []slog.Level{slog.LevelInfo, slog.LevelDebug} {
+		func() {
+			defer func() {
+				if rr := recover(); rr != nil {
+					viol("display", fmt.Sprintf("type %d: decoding or displaying the 5 bytes d3 00 00 %02x %02x panicked: %v", t, byte(t>>4), byte(t<<4), rr), kk)
+				}
+			}()
+			for _, raw := range [][]byte{{0xd3, 0, 0, byte(t >> 4), byte(t << 4)}, {0xd3, 0, 0, byte(t >> 4), byte(t<<4) | 0x0f, 0xff}} {
+				h := handler.New(fixedStart, lvl)
+				if m, _ := h.GetMessage(raw); m != nil {
+					if len(m.String()) == 0 {
+						viol("display", fmt.Sprintf("type %d: display of what GetMessage returns for % x is empty", t, raw), kk)
+					}
+					mc := *m
+					mc.MessageType = t // the same bytes labelled with the type, as a caller might
+					_ = mc.String()
+				}
+			}
+		}()
+	}
 	// synthetic CRC-valid frames of this type with bodies of each decodable layout
 	bodies := []string{"msm4", "msm7", "1005", "1006", "random", "len7", "len8", "msm4-continued-empty", "msm7-continued-empty"}
 	for i := 0; i < extraBodies; i++ {
